@@ -449,7 +449,8 @@ def step_name(s):
     if s['kind'] == 'bare':
         return 'parse(%s)' % s['doc']
     if s['kind'] == 'fault':
-        return 'fault(%s@%s,%s,%s%s)' % (s['fault'], s['pos'], s['place'], s['renderer'] or 'bare', ',caught' if s.get('caught') else '')
+        return 'fault(%s@%s,%s,%s%s%s)' % (s['fault'], s['pos'], s['place'], s['renderer'] or 'bare', '-no-html-tokens' if s['opts'] else '',
+                                           ',caught' if s.get('caught') else '')
     return s['kind']
 
 
@@ -473,6 +474,9 @@ def quick_alphabet():
                              ('span-ctor', 1, 'quote', 'Markdown'), ('block-start', 0, 'quote-later', 'Html'), ('block-read', 3, 'list', None),
                              ('block-start', 2, 'after-heading', 'Html'), ('span-find', 4, 'top', None)]:
         steps.append({'kind': 'fault', 'fault': f, 'pos': pos, 'place': place, 'renderer': r, 'opts': {}})
+    # renderers that register no tokens of their own: whatever the caller added inside the context must still be gone afterwards
+    steps.append({'kind': 'fault', 'fault': 'span-find', 'pos': 4, 'place': 'top', 'renderer': 'Ast', 'opts': {}})
+    steps.append({'kind': 'fault', 'fault': 'block-start', 'pos': 0, 'place': 'quote-later', 'renderer': 'Html', 'opts': {'process_html_tokens': False}})
     steps.append({'kind': 'fault', 'fault': 'span-find', 'pos': 5, 'place': 'quote', 'renderer': 'Html', 'opts': {}, 'caught': True, 'then': 'code'})
     return steps
 
@@ -488,11 +492,11 @@ def full_alphabet():
     steps.append({'kind': 'deep'})
     for f in FAULT_KINDS:
         for place in TRIGGERS:
-            for r in (None, 'Html', 'Markdown', 'LaTeX', 'XWiki20'):
+            for r, o in ((None, {}), ('Html', {}), ('Markdown', {}), ('LaTeX', {}), ('XWiki20', {}), ('Ast', {}), ('Html', {'process_html_tokens': False})):
                 for pos in range(0, 11):
-                    steps.append({'kind': 'fault', 'fault': f, 'pos': pos, 'place': place, 'renderer': r, 'opts': {}})
+                    steps.append({'kind': 'fault', 'fault': f, 'pos': pos, 'place': place, 'renderer': r, 'opts': o})
                     if r and pos in (1, 5):
-                        steps.append({'kind': 'fault', 'fault': f, 'pos': pos, 'place': place, 'renderer': r, 'opts': {}, 'caught': True,
+                        steps.append({'kind': 'fault', 'fault': f, 'pos': pos, 'place': place, 'renderer': r, 'opts': o, 'caught': True,
                                       'then': 'code' if f.startswith('span') else 'setext'})
     return steps
 
